@@ -335,7 +335,7 @@ func (c *EvalCtx) evalBinary(e *SExpr) (SV, error) {
 			return SV{}, fmt.Errorf("%s is not a map", e.Args[1])
 		}
 		ks := ex.tm.SortOf(mtt.Key())
-		dom := ex.heapGet(c.st, MapDomKey(ks), SArray(SInt, SArray(ks, SBool)))
+		dom := ex.heapGet(c.st, MapDomKey(ks, mtt), SArray(SInt, SArray(ks, SBool)))
 		return SV{V: TV{ts.And(ts.Neq(m, ts.Int(0)), ts.Select(ts.Select(dom, m), k))}, T: boolT}, nil
 	}
 	a, at, err := c.evalTerm(e.Args[0])
@@ -644,8 +644,8 @@ func (c *EvalCtx) evalIndex(e *SExpr) (SV, error) {
 			return SV{}, fmt.Errorf("%s: map value expected", e)
 		}
 		ks, vs := ex.mapSorts(t)
-		dom := ex.heapGet(c.st, MapDomKey(ks), SArray(SInt, SArray(ks, SBool)))
-		val := ex.heapGet(c.st, MapValKey(ks, vs), SArray(SInt, SArray(ks, vs)))
+		dom := ex.heapGet(c.st, MapDomKey(ks, t), SArray(SInt, SArray(ks, SBool)))
+		val := ex.heapGet(c.st, MapValKey(ks, vs, t), SArray(SInt, SArray(ks, vs)))
 		in := ts.And(ts.Neq(m, ts.Int(0)), ts.Select(ts.Select(dom, m), idx))
 		return SV{V: TV{ts.Ite(in, ts.Select(ts.Select(val, m), idx), ex.tm.zeroSort(vs))}, T: t.Elem()}, nil
 	}
@@ -673,9 +673,17 @@ func (c *EvalCtx) evalCall(e *SExpr) (SV, error) {
 		if len(e.Args) != 1 {
 			return SV{}, fmt.Errorf("old() takes one argument")
 		}
+		// heap reads go to the old state; parameters denote their entry
+		// values, locals and bound variables their current values
 		env := c.env
 		if c.oldEnv != nil {
-			env = c.oldEnv
+			env = map[string]SV{}
+			for k, v := range c.env {
+				env[k] = v
+			}
+			for k, v := range c.oldEnv {
+				env[k] = v
+			}
 		}
 		sub := c.with(c.old, env)
 		sub.oldEnv = nil
